@@ -103,6 +103,45 @@ def check_symbolic(b, counts, terms, wrt, ordering):
         _fail(b, counts, "C20.terms.order" if cls == "order" else "C20.terms.derivative", cls, w, f"terms {orig}\n got {got}\nwant {want}")
 
 
+REPRO_STRUCT = """from formulaic import Formula
+f = Formula({text!r})
+d = f.differentiate(*{wrt!r})
+def sig(t):
+    e = sorted(x.expr for x in t.factors)
+    return e[0] if e in (['0'], ['1']) else tuple(e)
+def dspec(fs, wrt):
+    cur = [] if fs == '1' else list(fs)
+    for v in wrt:
+        if v not in cur: return '0'
+        cur.remove(v)
+    return tuple(sorted(cur)) if cur else '1'
+for part in ('lhs', 'rhs'):
+    orig = [sig(t) for t in getattr(f, part)]
+    got = [sig(t) for t in getattr(d, part)]
+    assert got == [dspec(t, {wrt!r}) for t in orig], (part, orig, got)
+"""
+
+
+def check_structured(b, counts, lhs_terms, rhs_terms, wrt):
+    """Two-sided formulas: differentiation maps over the parts, each part term-wise in order."""
+    from formulaic import Formula
+
+    text = " + ".join(term_text(t) for t in lhs_terms) + " ~ " + formula_text(rhs_terms)
+    f = Formula(text)
+    b.case(("struct", text, wrt), any(set(wrt) & set(t) for t in lhs_terms + rhs_terms), sample={"formula": text, "wrt": list(wrt)})
+    w = {"formula": text, "wrt": list(wrt), "code": REPRO_STRUCT.format(text=text, wrt=tuple(wrt))}
+    try:
+        d = f.differentiate(*wrt)
+        parts = [(p, [term_sig(t) for t in getattr(f, p)], [term_sig(t) for t in getattr(d, p)]) for p in ("lhs", "rhs")]
+    except Exception as e:  # outcome of the code under test
+        _fail(b, counts, "C20.terms.derivative", f"structured-raises-{type(e).__name__}", w, f"{type(e).__name__}: {e}")
+        return
+    for p, orig, got in parts:
+        want = [spec_sig(d_spec(() if t == "1" else t, wrt)) for t in orig]
+        if got != want:
+            _fail(b, counts, "C20.terms.derivative", "structured-part", w, f"part {p}: terms {orig}\n got {got}\nwant {want}")
+
+
 def _fail(b, counts, clause, cls, witness, detail):
     k = (clause, cls)
     counts[k] = counts.get(k, 0) + 1
@@ -253,6 +292,9 @@ def run_bounded(ctx):
             rng.shuffle(terms)
             wrt = tuple(rng.choice(pool + ["e"]) for _ in range(rng.randint(0, 4)))
             check_symbolic(b, counts, terms, wrt, rng.choice([None, "none", "sort", "degree"]))
+            if len(terms) >= 2 and rng.random() < 0.25:
+                lhs = [t for t in terms[: len(terms) // 2] if t] or [("a",)]
+                check_structured(b, counts, lhs, terms[len(terms) // 2:], wrt)
     with ctx.bounded(
         "differentiate-finite-differences",
         rule="multilinear formulas (<= 5 product terms over numeric columns a..d, with/without intercept) x tuples of <= 3 "
